@@ -6,7 +6,8 @@ A *singular site* is, in the MIR of a kira function reachable from the audio-thr
   div      float `a / b`, `a % b` (also through `Frame`'s `/`, `/=`), `recip`      - domain: b != 0
   sqrt     `sqrt(a)`                                                               - domain: a >= 0
   log      `ln`, `log10`, `log2`, `log`                                            - domain: a > 0
-  pow      `powf(base, e)`, `powi(base, n)`                                        - domain: base > 0, or base >= 0 and e >= 0
+  pow-exp  `powf(base, e)`, `powi(base, n)`                                        - domain: base > 0, or base >= 0 and e >= 0
+  pow-base `powf(base, e)`                                                         - domain: base >= 0 (or e a whole constant)
   exp      `exp(a)`, `exp2(a)`                                                     - domain: a <= 700 (no overflow to +inf)
   inv-trig `acos`, `asin`                                                          - domain: |a| <= 1
   dep      a call into glam that normalises or divides internally (listed in GLAM_SINGULAR)
@@ -332,8 +333,18 @@ def collect_sites(F, A):
             elif ('<impl f32>' in cp or '<impl f64>' in cp) and CALL_KINDS.get(nm):
                 k = CALL_KINDS[nm]
                 opi = 1 if (nm in ('rem_euclid', 'div_euclid')) else 0
+                if k == 'pow':
+                    # two domain conditions, two obligations (a recorded finding about one does not hide the other):
+                    #   pow-exp   base > 0, or base >= 0 and exponent >= 0   (0 to a negative power is +inf)
+                    #   pow-base  powf only: base >= 0                       (a negative base to a fractional power is NaN)
+                    sites.append(Site(owner=own, body=b, bb=bb, kind='pow-exp', opname=nm, operand=t['args'][0], desc=None,
+                                      line=t.get('line'), extra=t['args'][1]))
+                    if nm == 'powf':
+                        sites.append(Site(owner=own, body=b, bb=bb, kind='pow-base', opname=nm, operand=t['args'][0], desc=None,
+                                          line=t.get('line'), extra=t['args'][1]))
+                    continue
                 sites.append(Site(owner=own, body=b, bb=bb, kind=k, opname=nm, operand=t['args'][opi], desc=None,
-                                  line=t.get('line'), extra=(t['args'][1] if nm in ('powf', 'powi') else None)))
+                                  line=t.get('line'), extra=None))
             elif cp.startswith('glam::') or cp.startswith('<glam::'):
                 if cp in GLAM_SINGULAR:
                     sites.append(Site(owner=own, body=b, bb=bb, kind='dep', opname=cp, operand=None, desc=cp.split('::', 1)[1],
@@ -403,13 +414,26 @@ def capture_in_own_loop(owner, at, cap, clocal):
     return False
 
 
+def payload_of_variant(e):
+    """`(self as InPowf).0` / `(*self as OutPowi).0` -> `(self as variant).0`: the exponent is the payload of whichever variant
+    the enclosing match selected; which arm computes the power is not part of the obligation."""
+    return re.sub(r'\(\s*\(?\*?\(?\*?(\w+)\)?\)?\s+as\s+\w+\s*\)\.(\d+)', r'(\1 as variant).\2', e)
+
+
+def integral_const(e):
+    try:
+        return float(e) == int(float(e))
+    except (ValueError, OverflowError):
+        return False
+
+
 def decide(site):
     """-> (auto-discharged?, operand description, interval text / reason)"""
     b, bb = site.body, site.bb
     if site.kind == 'dep':
         return False, site.desc, site.extra
     if site.operand is not None:
-        rc = resolve_capture(b, site.operand)
+        rc = resolve_capture(b, site.operand) if site.kind not in ('pow-exp', 'pow-base') else None
         if rc is not None:
             owner, at, cap, clocal = rc
             if site.kind == 'div' and capture_in_own_loop(owner, at, cap, clocal):
@@ -434,12 +458,24 @@ def decide(site):
         return iv.lo >= 0, d, 'argument in %r' % iv
     if k == 'log':
         return iv.lo > 0 or (iv.lo == 0 and iv.lo_open), d, 'argument in %r' % iv
-    if k == 'pow':
-        e = describe(b, site.extra, depth=6, at=bb) if site.extra is not None else '?'
-        ev = iv_operand(b, site.extra, bb, env, less) if site.extra is not None else value_range(e, env, less)
+    if k in ('pow-exp', 'pow-base'):
+        eb, ebb, eop = b, bb, site.extra
+        rc = resolve_capture(b, eop)
+        if rc is not None:
+            eb, ebb, eop = rc[0], rc[1], rc[2]
+            edec = dominating_decisions(eb, ebb)
+            eenv, _, eless = _env(edec)
+        else:
+            eenv, eless = env, less
+        e = payload_of_variant(describe(eb, eop, depth=6, at=ebb))
+        ev = iv_operand(eb, eop, ebb, eenv, eless)
+        if k == 'pow-base':
+            if iv.lo >= 0 or integral_const(e):
+                return True, d, 'base in %r' % iv
+            return False, d, 'base in %r: a negative base to a fractional power (NaN) not excluded' % iv
         if iv.lo > 0 or (iv.lo >= 0 and ev.lo >= 0):
             return True, d, 'base in %r, exponent in %r' % (iv, ev)
-        return False, d + ' ^ ' + e, 'base in %r, exponent in %r: 0 to a negative power / negative base to a fractional power not excluded' % (iv, ev)
+        return False, d + ' ^ ' + e, 'base in %r, exponent in %r: 0 to a negative power (+inf) not excluded' % (iv, ev)
     if k == 'exp':
         return iv.hi <= 700, d, 'argument in %r' % iv
     if k == 'inv-trig':
